@@ -1,22 +1,25 @@
 """C13 correspondence: pypose.module.EKF / UKF / PF vs Model/Filter.v and vs the textbook Kalman filter.
 
+The model and the oracles describe the code after the repairs 8375f2f (EKF innovation), 7981b02 (UKF sigma
+points / cross covariance), b057b94 (PF likelihood), bcca31d (LTI signature): every deviation from the Kalman
+filter is a VIOLATION.
+
 Families
-  witness   the rational witnesses of the `_refuted` theorems of Props/C13.v replayed on the
-            implementation (EKF innovation, UKF sigma points / cross covariance, PF likelihood,
-            pypose.module.LTI incompatibility) -> recorded findings
+  witness   directed regression cases: the rational witnesses of the `_old ... _refuted` theorems of
+            Props/C13.v (the inputs on which the old code failed), pypose.module.LTI as the model,
+            the PF Monte-Carlo band on the EKF witness system
   ekf/ukf   single steps on systems  f(x,u) = A x + B u + c1 + a.*pad(x.*x),  h likewise
             (a = b = 0: linear), dims 1..6, SPD non-diagonal Q, R, P over 6 orders of magnitude:
             implementation vs the Coq model (vm_compute, 320-bit fixed point, exact-inverse and
-            Cholesky routines of Base/Mat.v) within 1e-6 of the natural scale, and vs an independent
-            40-digit mpmath Kalman filter (the property's oracle); deviations are accepted as the
-            recorded finding only when they coincide with the recorded deviation exactly
+            Cholesky routines of Base/Mat.v) within 1e-6 of the natural scale, and vs independent
+            40-digit mpmath filters (Kalman filter / documented EKF recursion / textbook UKF)
   run       runs of up to 50 steps: every step is tied to the model from the implementation's
-            previous state (a run is the fold of the one-step map), every step is judged by the
+            previous state (a run is the fold of the one-step map), steps are judged by the
             oracle, returned covariances are checked symmetric / PSD
   pf        the normal and uniform draws are recorded and replayed: particles, Gaussian
             log-likelihood differences, resampling + mean + covariance against the model;
             softmax against mpmath; Monte-Carlo band (>= 6 sigma) against the closed-form posterior
-            mean of the particle model (documented and as coded)
+            mean of the documented particle model
 """
 import math
 from ..common import *
@@ -27,11 +30,6 @@ RULE = ('one case = one filter call (system, Q, R, x, y, u, P, k); non-trivial =
         'scales; PF cases: distinct by recorded draws')
 
 REL = 1e-6           # tolerance relative to the natural scale of the quantity (model tie and oracle)
-K_EKF = 'EKF.forward:innovation-taken-at-pre-transition-state'
-K_UKF_SIG = 'UKF.sigma_weight_points:non-diagonal-P:rows-of-lower-cholesky-factor'
-K_UKF = 'UKF.forward:linear-system:differs-from-kalman-filter:rows-of-factor+mixed-sigma-sets'
-K_PF = 'PF.forward:likelihood-evaluated-at-pre-transition-particles'
-K_LTI = 'EKF.forward:model=pypose.module.LTI:TypeError'
 
 
 # ------------------------------------------------------------------------------------------------ numerics
@@ -327,19 +325,19 @@ def is_spd(M, rel=1e-9):
 
 
 def judge_step(pp, torch, meta):
-    """The clauses of C13 on one filter call of the implementation.  Returns [(key, what)]: recorded
-    deviations come back under their recorded key, anything else under a key of its own.
-    Inputs outside the property's quantifier (P, Q, R not SPD) are not judged."""
+    """The clauses of C13 on one filter call of the implementation.  Returns [(key, what)].
+    Inputs outside the property's quantifier (P, Q, R not SPD, k <= -n) are not judged."""
     c, filt, kind = meta['case'], meta['filter'], meta.get('syskind', 'nls')
     if not (is_spd(c['P']) and is_spd(c['Q']) and is_spd(c['R'])) or not kval(c) > -len(c['x']):
         return []
     try:
         ox, oP = impl_step(pp, torch, filt, c, kind)
     except Exception as e:      # noqa
-        return [('%s.forward:raises' % filt.upper(), '%s.forward raised %s: %s' % (filt.upper(), type(e).__name__, e))]
+        return [('%s.forward:raises' % filt.upper(), '%s.forward (system class %s) raised %s: %s' % (filt.upper(), kind, type(e).__name__, e))]
     sx, sP = scales(c, ox, oP)
     REL = reltol(c)
     lin = is_linear(c['S'])
+    ref = 'Kalman filter' if lin else ('documented recursion' if filt == 'ekf' else 'unscented Kalman filter (columns of the factor, one sigma set for Pxy)')
     out = []
     if filt == 'ekf':
         kx, kP = oracle_kf(c)
@@ -348,26 +346,25 @@ def judge_step(pp, torch, meta):
                         'EKF covariance %r differs from (I-KC)(APA^T+Q) = %r' % (oP, fl(kP))))
         if far(ox, kx, REL * sx):
             vx, _ = oracle_kf(c, innov_at_prior=True)
-            if not far(ox, vx, REL * sx):
-                out.append((K_EKF, 'EKF mean %r differs from the %s %r and equals the recursion with the innovation y - h(x,u) taken at the pre-transition state'
-                            % (ox, 'Kalman filter' if lin else 'documented recursion', fl(kx))))
-            else:
-                out.append(('EKF.forward:mean-differs-from-kalman-filter-and-from-recorded-deviation',
-                            'EKF mean %r; %s gives %r (recorded deviation would give %r)' % (ox, 'Kalman filter' if lin else 'documented recursion', fl(kx), fl(vx))))
+            hint = ' (equals the recursion with the innovation y - h(x,u) taken at the pre-transition state: defect repaired by 8375f2f)' if not far(ox, vx, REL * sx) else ''
+            out.append(('EKF.forward:mean-differs-from-kalman-filter', 'EKF mean %r; %s gives %r%s' % (ox, ref, fl(kx), hint)))
         d = sym_psd_defect(oP, sP, REL)
         if d:
             out.append(('EKF.forward:covariance-invalid', 'EKF: ' + d))
     else:
-        if lin:
-            kx, kP = oracle_kf(c)
-            if far(ox, kx, REL * sx) or far(oP, kP, REL * sP):
+        try:
+            kx, kP = oracle_kf(c) if lin else oracle_ukf(c)
+        except Exception:       # noqa  (nonlinear system, negative centre weight: the predicted covariance may be indefinite -- no clause applies)
+            kx = None
+        if kx is not None and (far(ox, kx, REL * sx) or far(oP, kP, REL * sP)):
+            hint = ''
+            try:
                 vx, vP = oracle_ukf(c, rows_of_factor=True, mixed_sets=True)
                 if not far(ox, vx, REL * sx) and not far(oP, vP, REL * sP):
-                    out.append((K_UKF, 'UKF (k=%r) returns mean %r covariance %r; Kalman filter: %r %r; the result equals the recorded deviation '
-                                '(sigma points from rows of the lower Cholesky factor, Pxy pairing two different sigma sets)' % (kval(c), ox, oP, fl(kx), fl(kP))))
-                else:
-                    out.append(('UKF.forward:differs-from-kalman-filter-and-from-recorded-deviation',
-                                'UKF (k=%r) returns mean %r covariance %r; Kalman filter: %r %r' % (kval(c), ox, oP, fl(kx), fl(kP))))
+                    hint = ' (equals the filter with sigma points from ROWS of the lower Cholesky factor and Pxy pairing two sigma sets: defects repaired by 7981b02)'
+            except Exception:   # noqa
+                pass
+            out.append(('UKF.forward:differs-from-kalman-filter', 'UKF (k=%r) returns mean %r covariance %r; %s: %r %r%s' % (kval(c), ox, oP, ref, fl(kx), fl(kP), hint)))
         d = sym_psd_defect(oP, sP, REL)
         if d and (kval(c) >= 0 or 'symmetric' in d or 'finite' in d):
             out.append(('UKF.forward:covariance-invalid', 'UKF (k=%r): %s' % (kval(c), d)))
@@ -395,32 +392,18 @@ def judge_sigma(pp, torch, c):
         out.append(('UKF.sigma_weight_points:mean', 'weighted mean of the sigma points %r differs from x %r' % (mean.tolist(), x.tolist())))
     if np.abs(cov - P).max() > REL * sc:
         L = np.linalg.cholesky((n + k) * P)
-        if np.abs(cov - L.T @ L / (n + k)).max() <= REL * sc:
-            out.append((K_UKF_SIG, 'weighted covariance of the sigma points %r differs from P %r and equals L^T L/(n+k) (rows of the lower factor L were added instead of columns)'
-                        % (cov.tolist(), P.tolist())))
-        else:
-            out.append(('UKF.sigma_weight_points:covariance-differs-from-P-and-from-recorded-deviation',
-                        'weighted covariance of the sigma points %r differs from P %r' % (cov.tolist(), P.tolist())))
+        hint = ' (equals L^T L/(n+k): rows of the lower factor were added instead of columns, defect repaired by 7981b02)' \
+            if np.abs(cov - L.T @ L / (n + k)).max() <= REL * sc else ''
+        out.append(('UKF.sigma_weight_points:covariance-differs-from-P',
+                    'weighted covariance of the sigma points %r differs from P %r%s' % (cov.tolist(), P.tolist(), hint)))
     return out
 
 
 def judge_lti(pp, torch, c):
-    """EKF / UKF with pypose's own linear system class"""
+    """EKF / UKF with pypose's own linear system class: must run and agree with the Kalman filter"""
     out = []
     for filt in ('ekf', 'ukf'):
-        try:
-            ox, oP = impl_step(pp, torch, filt, c, 'lti')
-        except TypeError as e:
-            out.append((K_LTI, '%s(pp.module.LTI(A,B,C,D,c1,c2)) raises TypeError: %s' % (filt.upper(), e)))
-            continue
-        except Exception as e:  # noqa
-            out.append(('%s.forward:model=LTI:raises' % filt.upper(), '%s: %s' % (type(e).__name__, e)))
-            continue
-        # it returns: then it has to be the filter of the nls route
-        rx, rP = impl_step(pp, torch, filt, c, 'nls')
-        sx, sP = scales(c, ox, oP)
-        if far(ox, rx, REL * sx) or far(oP, rP, REL * sP):
-            out.append(('%s.forward:model=LTI:differs-from-NLS-route' % filt.upper(), 'LTI route %r %r, NLS route %r %r' % (ox, oP, rx, rP)))
+        out += judge_step(pp, torch, dict(kind='step', filter=filt, syskind='lti', case=c))
     return out
 
 
@@ -558,13 +541,13 @@ class Run:
         self.pp = import_pypose()
         import torch
         self.torch = torch
-        self.lits = {'ekf': [], 'ukf': [], 'pfpart': [], 'pflik': [], 'pfest': [], 'ekfdoc': [], 'ukfrep': []}
+        self.lits = {'ekf': [], 'ukf': [], 'pfpart': [], 'pflik': [], 'pfest': [], 'ekforc': [], 'ukforc': []}
         self.runs = []          # (filter, header literal, [step literals])
         self.metas = []
 
     def report(self, findings, meta):
         for key, what in findings:
-            self.ctx.count('finding:' + key.split(':')[0] + (':recorded' if key in self.ctx.known else ':NEW'))
+            self.ctx.count('VIOLATION:' + key)
             self.ctx.violation(key, what, dict(strip(meta), expect_key=key))
 
     # ---- one filter call: implementation, oracle, literal for Coq
@@ -599,7 +582,7 @@ class Run:
             self.report(judge_step(self.pp, self.torch, meta), meta)
         # oracle consistency: the documented EKF / the repaired UKF of the Coq model against the mpmath oracle
         # (this ties the oracle used above to the Coq specification; the implementation is not involved)
-        fam2 = 'ekfdoc' if filt == 'ekf' else 'ukfrep'
+        fam2 = 'ekforc' if filt == 'ekf' else 'ukforc'
         if family != 'run' and len(self.lits[fam2]) < 40 and is_spd(c['P']):
             try:
                 kx, kP = oracle_kf(c) if filt == 'ekf' else oracle_ukf(c)
@@ -691,7 +674,7 @@ class Run:
         ctx = self.ctx
         files = []
         for fam, fn, per in (('ekf', 'ekf_bad', 60), ('ukf', 'ukf_bad', 40), ('pfpart', 'pf_part_bad', 40), ('pflik', 'pf_lik_bad', 40),
-                             ('pfest', 'pf_est_codes', 40), ('ekfdoc', 'ekf_documented_bad', 40), ('ukfrep', 'ukf_repaired_bad', 40)):
+                             ('pfest', 'pf_est_codes', 40), ('ekforc', 'ekf_bad', 40), ('ukforc', 'ukf_bad', 40)):
             for si, sh in enumerate(shard(self.lits[fam], per)):
                 files.append(('%s_%03d' % (fam, si), HDR + 'Eval vm_compute in %s %s.\n' % (fn, coq_list(sh))))
         for ri, (filt, head, steps) in enumerate(self.runs):
@@ -714,11 +697,11 @@ class Run:
                     if code == 1:
                         ctx.mismatch('pf-estimate', strip(self.metas[i]))
                 continue
-            if fam in ('ekfdoc', 'ukfrep'):
+            if fam in ('ekforc', 'ukforc'):
                 ctx.count('oracle-consistency-' + fam, len(self.lits[fam]) if name.endswith('_000') else 0)
                 for i in parse_nat_list(ev[0]):
                     ctx.obligation_broken('oracle-consistency:' + fam, 'the mpmath oracle and the %s of Model/Filter.v disagree on %r'
-                                          % ('documented EKF recursion' if fam == 'ekfdoc' else 'repaired UKF', strip(self.metas[i])))
+                                          % ('EKF' if fam == 'ekforc' else 'UKF', strip(self.metas[i])))
                 continue
             for i in parse_nat_list(ev[0]):
                 fam2 = {'ekf': 'ekf-step', 'ukf': 'ukf-step', 'pfpart': 'pf-particles', 'pflik': 'pf-loglik'}.get(fam)
@@ -743,25 +726,23 @@ W_PF = dict(S=dict(A=[[1.0, 1.0], [0.0, 1.0]], B=[[0.0], [1.0]], C=[[1.0, 0.0]],
 
 
 def witnesses(R):
+    """directed regression cases: the inputs on which the code failed before the repairs (Props/C13.v, `_old` theorems).
+    The Kalman filter values are (1/4, 1/8) for W_EKF and (4/5, [[4/5]]) for W_UKF1 (kernel-checked there)."""
     ctx, pp, torch = R.ctx, R.pp, R.torch
-    # EKF: Coq says the code returns (9/8, 9/16), the Kalman filter (1/4, 1/8)
-    r = R.step_case('ekf', W_EKF, family='witness')
-    if r is not None and far(r[0], [9 / 8, 9 / 16], 1e-12):
-        ctx.mismatch('witness-ekf', dict(kind='step', filter='ekf', syskind='nls', case=W_EKF, got=r[0], model=[9 / 8, 9 / 16]))
-    # UKF 1-d: code (2/5, 16/5), Kalman filter (4/5, 4/5)
-    r = R.step_case('ukf', W_UKF1, family='witness')
-    if r is not None and (far(r[0], [2 / 5], 1e-12) or far(r[1], [[16 / 5]], 1e-12)):
-        ctx.mismatch('witness-ukf1', dict(kind='step', filter='ukf', syskind='nls', case=W_UKF1, got=r, model=[[2 / 5], [[16 / 5]]]))
-    # UKF 2-d: sigma points
-    R.step_case('ukf', W_UKF2, family='witness')
+    for kind in ('nls', 'sys', 'lti'):
+        r = R.step_case('ekf', W_EKF, kind, family='witness')
+        if r is not None and far(r[0], [1 / 4, 1 / 8], 1e-12):
+            ctx.violation('EKF.forward:mean-differs-from-kalman-filter', 'witness of C13_ekf_old_linear_witness: got %r, Kalman filter (1/4, 1/8)' % (r[0],),
+                          dict(kind='step', filter='ekf', syskind=kind, case=W_EKF, expect_key='EKF.forward:mean-differs-from-kalman-filter'))
+        r = R.step_case('ukf', W_UKF1, kind, family='witness')
+        if r is not None and (far(r[0], [4 / 5], 1e-12) or far(r[1], [[4 / 5]], 1e-12)):
+            ctx.violation('UKF.forward:differs-from-kalman-filter', 'witness of C13_ukf_old_linear_witness: got %r, Kalman filter (4/5, [[4/5]])' % (r,),
+                          dict(kind='step', filter='ukf', syskind=kind, case=W_UKF1, expect_key='UKF.forward:differs-from-kalman-filter'))
+        R.step_case('ukf', W_UKF2, kind, family='witness')
     meta = dict(kind='sigma', case=W_UKF2)
     ctx.case(('sigma', repr(W_UKF2)), branch='sigma-points-nondiag')
     R.report(judge_sigma(pp, torch, W_UKF2), meta)
-    # pypose.module.LTI as the model
-    meta = dict(kind='lti', case=W_EKF)
-    ctx.case(('lti', repr(W_EKF)), branch='lti-model')
-    R.report(judge_lti(pp, torch, W_EKF), meta)
-    # PF: documented vs coded posterior mean, 200000 particles, fixed seed
+    # PF: posterior mean of the documented particle model, 200000 particles, fixed seed
     meta = dict(kind='pfband', case=W_PF, N=200000, seed=12345)
     ctx.case(('pfband', 'witness'), branch='pf-band')
     R.report(judge_pf(pp, torch, meta), meta)
@@ -773,12 +754,11 @@ def judge_pf(pp, torch, meta):
     if b['neff'] < 50:        # weights collapsed onto a few particles: the standard error estimate is not reliable
         return out
     if b['z_documented'] > 6:
-        if b['z_coded'] <= 6:
-            out.append((K_PF, 'PF mean %r (N=%d, N_eff=%.0f) is %.1f sigma from the posterior mean of the documented particle model %r and %.1f sigma from '
-                        'the model with the likelihood evaluated at the pre-transition particles %r' % (b['est'], b['N'], b['neff'], b['z_documented'], b['documented'], b['z_coded'], b['coded'])))
-        else:
-            out.append(('PF.forward:mean-outside-6-sigma-of-documented-and-of-recorded-model',
-                        'PF mean %r; documented %r (%.1f sigma), recorded deviation %r (%.1f sigma)' % (b['est'], b['documented'], b['z_documented'], b['coded'], b['z_coded'])))
+        hint = ' (within %.1f sigma of the model with the likelihood evaluated at the pre-transition particles %r: defect repaired by b057b94)' \
+            % (b['z_coded'], b['coded']) if b['z_coded'] <= 6 else ''
+        out.append(('PF.forward:mean-outside-6-sigma-of-documented-particle-model',
+                    'PF mean %r (N=%d, N_eff=%.0f) is %.1f sigma from the posterior mean %r of the documented particle model%s'
+                    % (b['est'], b['N'], b['neff'], b['z_documented'], b['documented'], hint)))
     return out
 
 
@@ -789,19 +769,20 @@ def run(ctx):
     rng = ctx.rng
     pp, torch = R.pp, R.torch
     witnesses(R)
-    # ---- directed single steps: every state dimension, both system classes, k classes, extreme scales
+    # ---- directed single steps: every state dimension, the three system classes, k classes, extreme scales
     for n in range(1, 7):
         m, p = (n % 3) + 1, (n % 2) + 1
         for filt in ('ekf', 'ukf'):
             R.step_case(filt, gen_case(rng, n, m, p, k=None), 'nls', family='directed')
             R.step_case(filt, gen_case(rng, n, 7 - n if n < 6 else 6, p, k=0 if filt == 'ukf' else None), 'sys', family='directed')
             R.step_case(filt, gen_case(rng, n, m, p, nonlinear=True, k=rng.choice([1, 2.5])), 'nls', family='directed')
+            R.step_case(filt, gen_case(rng, n, (n % 4) + 1, p, k=rng.choice([None, 0.5]) if filt == 'ukf' else None), 'lti', family='directed')
     for sc in ([1e-3, 1e3, 1.0], [1e3, 1e-3, 1e3], [1e-3, 1e-3, 1e3], [1e3, 1e3, 1e-3], [1e-3, 1e-3, 1e-3], [1e3, 1e3, 1e3]):
         for filt in ('ekf', 'ukf'):
             R.step_case(filt, gen_case(rng, 3, 2, 1, scales=sc, k=rng.choice([None, 1])), 'nls', family='directed')
     for k in (None, 0, 1, 3, 0.5, 2.75, -0.5, -1.5):
         R.step_case('ukf', gen_case(rng, 3, 2, 2, k=k), 'nls', family='directed')
-    # sigma points: diagonal P must reproduce (x, P); non-diagonal P is the recorded finding
+    # sigma points reproduce (x, P), diagonal or not
     for n in (1, 2, 4):
         for diag in (True, False):
             c = gen_case(rng, n, 1, 1, k=rng.choice([None, 1, 0.5]), diagonal=diag)
@@ -813,14 +794,15 @@ def run(ctx):
         n, m, p = rng.randint(1, 6), rng.randint(1, 6), rng.randint(1, 4)
         nonlin = rng.random() < 0.3
         k = rng.choice([None, None, 0, 1, 2, 3, 0.5, 2.75, -0.5 if n >= 1 else 0, -0.25 * n])
-        kind = 'sys' if (not nonlin and rng.random() < 0.3) else 'nls'
+        kind = rng.choice(['sys', 'lti', 'nls', 'nls']) if not nonlin else 'nls'
         R.step_case(filt, gen_case(rng, n, m, p, nonlinear=nonlin, k=k if filt == 'ukf' else None, diagonal=rng.random() < 0.1), kind)
     # ---- runs
     plan = [(6, 4, 2, 50), (2, 2, 1, 50), (3, 5, 1, 30), (1, 1, 1, 50), (4, 2, 2, 50), (5, 6, 3, 20)] if not ctx.thorough else \
         [(rng.randint(1, 6), rng.randint(1, 6), rng.randint(1, 3), rng.choice([50, 50, 20, 35])) for _ in range(30)]
     for (n, m, p, T) in plan:
         for filt in ('ekf', 'ukf'):
-            R.run_case(filt, rng, n, m, p, T, nonlinear=(0.01 if n == 3 else False), k=None if filt == 'ekf' else rng.choice([None, 1, 0.5]))
+            R.run_case(filt, rng, n, m, p, T, nonlinear=(0.01 if n == 3 else False), kind=('nls' if n == 3 else rng.choice(['nls', 'lti', 'sys'])),
+                       k=None if filt == 'ekf' else rng.choice([None, 1, 0.5]))
     # ---- PF: recorded draws against the model
     for t in range(ctx.scale(40, 300)):
         n, m, p = rng.randint(1, 3), rng.randint(1, 3), rng.randint(1, 2)
@@ -828,16 +810,18 @@ def run(ctx):
         # measurements near the predicted observation keep the weights from collapsing onto one particle
         np = np_()
         S = c['S']
-        ypred = np.array(S['C']) @ np.array(c['x']) + np.array(S['D']) @ np.array(c['u']) + np.array(S['c2'])
+        xpred = np.array(S['A']) @ np.array(c['x']) + np.array(S['B']) @ np.array(c['u']) + np.array(S['c1'])
+        ypred = np.array(S['C']) @ xpred + np.array(S['D']) @ np.array(c['u']) + np.array(S['c2'])
         c['y'] = [float(v + rng.gauss(0, 1) * math.sqrt(max(c['R'][i][i], 1e-12))) for i, v in enumerate(ypred)]
-        R.pf_case(c, rng.choice([1, 2, 5, 8, 12]), rng.randint(0, 10 ** 6), kind='nls' if t % 4 else ('sys' if is_linear(S) else 'nls'))
-    # ---- PF: Monte-Carlo band on random linear systems (as-coded model must be met; the documented one is the finding)
+        R.pf_case(c, rng.choice([1, 2, 5, 8, 12]), rng.randint(0, 10 ** 6), kind='nls' if t % 4 else (rng.choice(['sys', 'lti']) if is_linear(S) else 'nls'))
+    # ---- PF: Monte-Carlo band on random linear systems against the documented particle model
     for t in range(ctx.scale(20, 100)):
         n, m = rng.randint(1, 3), rng.randint(1, 2)
         c = gen_case(rng, n, m, 1, scales=[1.0, 10.0 ** rng.uniform(-0.5, 0.5), 10.0 ** rng.uniform(-0.5, 0.5)])
         np = np_()
         S = c['S']
-        ypred = np.array(S['C']) @ np.array(c['x']) + np.array(S['D']) @ np.array(c['u']) + np.array(S['c2'])
+        xpred = np.array(S['A']) @ np.array(c['x']) + np.array(S['B']) @ np.array(c['u']) + np.array(S['c1'])
+        ypred = np.array(S['C']) @ xpred + np.array(S['D']) @ np.array(c['u']) + np.array(S['c2'])
         c['y'] = [float(v + rng.gauss(0, 1)) for v in ypred]
         meta = dict(kind='pfband', case=c, N=rng.choice([1000, 20000, 200000] + ([1000000] if ctx.thorough and t % 10 == 0 else [])), seed=rng.randint(0, 10 ** 6))
         ctx.case(('pfband', repr(c)), branch='pf-band')
@@ -845,7 +829,7 @@ def run(ctx):
     # ---- Coq
     R.run_coq()
     ctx.notes.append('model evaluated by vm_compute in 320-bit binary fixed point (Bignums BigZ); tolerance %g of the natural scale' % REL)
-    ctx.assumptions += ['torch.linalg.pinv is the inverse on SPD input (pinv_ok)', 'torch.linalg.cholesky returns the lower factor (cholesky_ok)',
+    ctx.assumptions += ['torch.linalg.pinv is the inverse on SPD input (pinv_ok)', 'msqrt returns a factor L with L L^T = M (factor_ok; torch.linalg.cholesky: cholesky_ok)',
                         'time argument t of the system callbacks not modelled']
     # ---- search: the property directly on the mismatching inputs
     for mm in ctx.mismatches[:40]:
@@ -857,7 +841,7 @@ def run(ctx):
 
 def replay(ctx, case, new_only=False):
     """re-run one case against the property's oracle.  Returns a description (still failing) or None.
-    new_only (search after a model/implementation mismatch): only deviations that are not recorded findings count."""
+    new_only (search after a model/implementation mismatch): the first failing clause as (key, what)."""
     pp = import_pypose()
     import torch
     kind = case.get('kind')
@@ -874,7 +858,6 @@ def replay(ctx, case, new_only=False):
     else:
         res = []
     if new_only:
-        res = [r for r in res if r[0] not in ctx.known]
         return res[0] if res else None
     if case.get('expect_key'):          # a replay file names the clause that failed: only that one counts
         res = [r for r in res if r[0] == case['expect_key']]
@@ -908,13 +891,11 @@ def judge_pf_parts(pp, torch, case):
         d = np.array(c['y']) - fq('C', 'D', 'c2', 'b', len(c['y']), at)
         return -0.5 * np.einsum('ij,jk,ik->i', d, Ri, d)
     tol = REL * max(1.0, np.abs(lp - lp[0]).max())
-    coded, doc = ll(xp), ll(xs)
+    old, doc = ll(xp), ll(xs)
     if np.abs((lp - lp[0]) - (doc - doc[0])).max() > tol:
-        if np.abs((lp - lp[0]) - (coded - coded[0])).max() <= tol:
-            if N > 1 and np.abs((coded - coded[0]) - (doc - doc[0])).max() > tol:
-                out.append((K_PF, 'log-likelihoods are those of the pre-transition particles'))
-        else:
-            out.append(('PF.relative_likelihood:not-gaussian-likelihood', 'log_prob %r' % lp.tolist()))
+        hint = ' (they are those of the pre-transition particles: defect repaired by b057b94)' if np.abs((lp - lp[0]) - (old - old[0])).max() <= tol else ''
+        out.append(('PF.forward:log-likelihoods-not-those-of-the-propagated-particles', 'log_prob %r; expected differences %r%s'
+                    % (lp.tolist(), (doc - doc[0]).tolist(), hint)))
     q, r = np.array(rec['q']), np.array(rec['r'])
     cs = np.cumsum(q)
     if all(np.abs(cs - ri).min() > 1e-9 for ri in r):
